@@ -26,7 +26,9 @@ RULE = ("scenarios: operation {init, re-key via sp[k]=v, re-key via update_state
         "one PFault case per (hooked call under a workspace incl. read-only opens and listdir, errno in {EIO, ENOSPC, "
         "EACCES, EXDEV, EROFS}) injected live (quick: a seeded sample of calls per scenario, all five errnos rotating; "
         "thorough: every call x every errno), plus sampled DOUBLE faults (a second failing call later in the same run, "
-        "e.g. inside a rollback or handler).  non-trivial: the operation performs >= 2 mutating calls (crash) or the "
+        "e.g. inside a rollback or handler), plus FOLLOW-UP cases: a single fault that the operation handled "
+        "(exception) leaving the pre-state on disk, then a further operation through the SAME job handle (sp[k]=v / doc[k]=v / init()), then a restart "
+        "— quick: every mutating call x {EIO, EACCES} x sp[k]=v plus one rotating follow-up; thorough: every call x every errno.  non-trivial: the operation performs >= 2 mutating calls (crash) or the "
         "fault changes the outcome or the tree; distinct by (scenario, probe)")
 TRUSTED = [
     "the interposer (completeness self-check: replaying the trace on the pre-state reproduces the post-state byte for byte)",
@@ -147,7 +149,8 @@ def build_template(scn, root):
 
 
 def prepare(scn, root):
-    """Handles for the run (fresh Project objects; not traced).  Returns a thunk performing the operation."""
+    """Handles for the run (fresh Project objects; not traced).  Returns (thunk performing the operation,
+    the job handle the operation goes through — the one a follow-up operation will use)."""
     import signac
 
     pa = signac.Project(os.path.join(root, "pA"))
@@ -157,7 +160,7 @@ def prepare(scn, root):
     ida = NULL_ID if scn["dest"] == "nullsp" else calc_id(SP_A)
     if op == "init":
         job = pa.open_job(init_sp_of(scn))
-        return lambda: job.init()
+        return (lambda: job.init()), job
     if op in ("remove", "clear") and scn["dest"] == "missing":
         job = pa.open_job(SP_A)
     else:
@@ -166,17 +169,17 @@ def prepare(scn, root):
         nsp = new_sp_of(scn)
         if scn.get("route") == "update":
             upd = {k: v for k, v in nsp.items() if SP_A.get(k, None) != v}
-            return lambda: job.update_statepoint(upd, overwrite=True)
+            return (lambda: job.update_statepoint(upd, overwrite=True)), job
         (k, v), = [(k, v) for k, v in nsp.items() if SP_A.get(k) != v]
-        return lambda: job.sp.__setitem__(k, v)
+        return (lambda: job.sp.__setitem__(k, v)), job
     if op == "move":
-        return lambda: job.move(pb)
+        return (lambda: job.move(pb)), job
     if op == "clone":
-        return lambda: pb.clone(job)
+        return (lambda: pb.clone(job)), job
     if op == "remove":
-        return lambda: job.remove()
+        return (lambda: job.remove()), job
     if op == "clear":
-        return lambda: job.clear()
+        return (lambda: job.clear()), job
     raise AssertionError(op)
 
 
@@ -358,7 +361,7 @@ def run_op(scn, template, work, name, fault=None, fault2=None):
     root = os.path.join(work, name)
     shutil.copytree(template, root, symlinks=True)
     pre = snapshot(root)
-    act = prepare(scn, root)
+    act, job = prepare(scn, root)
     events = []
     seen = {}
     fired = []
@@ -385,6 +388,7 @@ def run_op(scn, template, work, name, fault=None, fault2=None):
         except Exception as e:  # noqa: BLE001 - the class is the observation
             exc = e
     ip.fired_at = fired[0] if fired else None
+    ip.job = job
     return root, pre, ip, events, exc
 
 
@@ -484,6 +488,36 @@ def run_scenario(desc, work):
                 s2, n2, _ = later[j % len(later)]
                 en2 = ERRNOS[(j // 7) % len(ERRNOS)][0]
                 cases.append(double_fault(scn, thr, template, work, kinds0, (s, n, en), (s2, n2, en2), clean_out))
+        # ---- handled fault + follow-up through the same handle
+        fplan = []
+        if probe == "all":
+            fos = follow_ups_for(scn)
+            mutating = [(s, n) for (s, n, _) in events if s[0] in ("SgRename", "SgMkdir", "SgOpen", "SgWrite", "SgUnlink", "SgRmdir")]
+            others = [(s, n) for (s, n, _) in events if (s, n) not in mutating]
+            j = 0
+            for (s, n) in mutating:
+                if desc.get("pick") is not None:         # quick: per mutating call a state point change after EIO and
+                    fplan.append(((s, n, "EIO"), "set"))    # after EACCES (the "destination exists" errno class), and one
+                    fplan.append(((s, n, "EACCES"), "set"))  # more follow-up with a rotating errno
+                    fplan.append(((s, n, ERRNOS[j % 5][0]), fos[1 + j % (len(fos) - 1)]))
+                else:                                    # thorough: every errno, follow-ups rotating; all follow-ups for EIO
+                    for m, (en, _) in enumerate(ERRNOS):
+                        fplan.append(((s, n, en), fos[(j + m) % len(fos)]))
+                    for fo_name in fos:
+                        fplan.append(((s, n, "EIO"), fo_name))
+                j += 1
+            if desc.get("pick") is None:
+                for (s, n) in others:
+                    fplan.append(((s, n, ERRNOS[j % 5][0]), fos[j % len(fos)]))
+                    j += 1
+            fplan = list(dict.fromkeys((a, b) for a, b in fplan))
+        elif isinstance(probe, dict) and "follow" in probe:
+            a, fo_name = probe["follow"]
+            fplan = [(((a[0], tuple(a[1]), tuple(a[2])), a[3], a[4]), fo_name)]
+        for f1, fo_name in fplan:
+            cse = follow_case(scn, thr, template, work, kinds0, f1, fo_name)
+            if cse is not None:
+                cases.append(cse)
         if isinstance(probe, dict) and "fault2" in probe:
             a, b = probe["fault2"]
             cases.append(double_fault(scn, thr, template, work, kinds0,
@@ -492,6 +526,59 @@ def run_scenario(desc, work):
     finally:
         set_threads(True)
     return cases
+
+
+FOLLOW = {"set": ["set", "q", 9], "doc": ["doc", "fk", 1], "init": ["init"]}
+
+
+def follow_ups_for(scn):
+    return ["set", "init"] if scn["op"] == "init" else ["set", "doc", "init"]
+
+
+def coq_fop(L, fo):
+    if fo[0] == "set":
+        return "(FSet %s %s)" % (L.raw(fo[1]), coq_json(fo[2]))
+    if fo[0] == "doc":
+        return "(FDoc %s %s)" % (L.raw(fo[1]), coq_json(fo[2]))
+    return "FInit"
+
+
+def follow_case(scn, thr, template, work, kinds0, f1, fo_name):
+    """A handled fault, then a follow-up operation through the SAME handle, then a restart (fresh Project)."""
+    (s, n, en) = f1
+    fo = FOLLOW[fo_name]
+    root, pre_f, ipf, ev_f, exc1 = run_op(scn, template, work, "h", fault=(s, n, dict(ERRNOS)[en]))
+    if exc1 is None or not ipf.injected:
+        shutil.rmtree(root, ignore_errors=True)
+        return None                       # not a handled error: nothing to follow up
+    mid_snap, mid_ws = observe(root)
+    if deep_key(mid_snap) != deep_key(pre_f):
+        # the error left a check()-detectable state (or removed data): the user has to repair first; the
+        # follow-up class is about errors that leave the PRE-STATE, where the handle must be unchanged too
+        shutil.rmtree(root, ignore_errors=True)
+        return None
+    job = ipf.job
+    exc2 = None
+    try:
+        if fo[0] == "set":
+            job.sp[fo[1]] = fo[2]
+        elif fo[0] == "doc":
+            job.doc[fo[1]] = fo[2]
+        else:
+            job.init()
+    except Exception as e:  # noqa: BLE001
+        exc2 = e
+    snap, ws = observe(root)
+    shutil.rmtree(root, ignore_errors=True)
+    L = Lit()
+    out1, out2 = exn_name(exc1), (None if exc2 is None else exn_name(exc2))
+    sig = "{| sg_kind := %s; sg_p := %s; sg_q := %s |}" % (s[0], L.path(list(s[1])), L.path(list(s[2])))
+    pr = "(PFollow %s %s %s %s %s %s %s %s)" % (sig, coq_nat(n), en, coq_opt(out1), L.fobs(mid_snap, mid_ws),
+                                              coq_fop(L, fo), coq_opt(out2), L.fobs(snap, ws))
+    obs = {"outcome_op": out1, "follow_up": fo, "outcome_follow_up": out2, "mid_tree_is_pre": deep_key(mid_snap) == deep_key(pre_f),
+           "final_tree": brief_tree(snap), "projects": brief_ws(ws)}
+    fd = {"scn": scn, "probe": {"follow": [[s[0], list(s[1]), list(s[2]), n, en], fo_name]}}
+    return case_of(L, scn, thr, pre_f, pr, fd, obs, True, kinds0 + ["follow-up", "follow:" + fo_name, en])
 
 
 def double_fault(scn, thr, template, work, kinds0, f1, f2, clean_out):
